@@ -350,9 +350,11 @@ def ref_view(params):
                 ut = UT_INVALID
         else:
             ut, user = UT_STANDARD, un
+    elif ux is not None and params[b"username*"][3]:
+        ut = None                # ext-value written as quoted-string: outside the RFC 7616 grammar, no expectation
     elif ux is not None:
         ut = UT_INVALID
-        if not v["uh"] and not params[b"username*"][3]:
+        if not v["uh"]:
             # ext-value = charset "'" [ language ] "'" value-chars ; only UTF-8 is defined by RFC 7616
             parts = ux.split(b"'", 2)
             if len(parts) != 3 or not all((c in ALPHA or c in DIGIT or c == 0x2D) for c in parts[1]) \
@@ -663,6 +665,8 @@ def rnd_semantic(rng):
         if rng.random() < 0.1:
             enc += rng.choice([b"%", b"%4", b"%zz", b"%4g"])
         p[b"username*"] = rng.choice([b"UTF-8", b"utf-8", b"UTF-8", b"ISO-8859-1"]) + b"'" + rng.choice([b"", b"en", b"de-CH"]) + b"'" + enc
+        if rng.random() < 0.08:
+            p[b"username*"] = rng.choice([b"UTF-8", b"UTF-8'", b"UTF-8''", b"UTF-8'e", b"UTF-8'en", b"utf-8'x'", b"UTF-8'' ", b"UTF-9''a"])
         if nt == "exthash":
             p[b"userhash"] = b"true"
     if b"userhash" not in p and rng.random() < 0.2:
@@ -708,11 +712,13 @@ def render_params(rng, sem, spans=None):
         first = False
         start = len(out)
         v = sem[nm]
-        as_token = is_token(v) and (nm == b"username*" or rng.random() < (0.6 if nm in (b"algorithm", b"qop", b"nc", b"userhash") else 0.2))
+        as_token = is_token(v) and rng.random() < (0.85 if nm == b"username*" else 0.6 if nm in (b"algorithm", b"qop", b"nc", b"userhash") else 0.2)
         body = v if as_token else quote(v, rng=rng, extra=rng.choice([0.0, 0.0, 0.15, 0.6, 1.0]))
-        out += rnd_case(rng, nm) + rnd_ws(rng, 0.15) + b"=" + rnd_ws(rng, 0.15) + body + rnd_ws(rng, 0.2)
+        out += rnd_case(rng, nm) + rnd_ws(rng, 0.15) + b"=" + rnd_ws(rng, 0.15)
+        vstart = len(out)
+        out += body + rnd_ws(rng, 0.2)
         if spans is not None:
-            spans.append((SLOT.get(nm), start, len(out)))
+            spans.append((SLOT.get(nm), start, len(out), vstart, not as_token))
     if rng.random() < 0.05:
         out += b"," + rnd_ws(rng)
     return bytes(out)
@@ -850,9 +856,9 @@ def find_cases(rng, n):
     for _ in range(n):
         hs = []
         for _ in range(rng.randint(0, 5)):
-            kind = rng.choice([1, 1, 1, 1, 2, 8, 16, 4])
-            nm = rng.choice(names)
-            sch = rng.choice([b"Digest", b"Basic", b"digest", b"BASIC", b"Diges", b"Digestx", b"Basic", b"DiGeSt", b"Negotiate", b""])
+            kind = rng.choice([1, 1, 1, 1, 1, 1, 2, 8, 16, 4])
+            nm = rng.choice(names[:3] * 3 + names)
+            sch = rng.choice([b"Digest", b"Basic", b"digest", b"BASIC", b"Digest", b"Basic", b"Diges", b"Digestx", b"Basic", b"DiGeSt", b"Negotiate", b""])
             val = sch + rng.choice([b"", b" ", b"\t", b" abc", b"\tabc", b"abc", b"  x", b"=", b",a"])
             hs += [str(kind), hx(nm), hx(val)]
         yield ["find", rng.choice(["b", "d"]), "1" if rng.random() < 0.9 else "0"] + hs
@@ -870,17 +876,20 @@ def _sig(s):
 class Spec:
     props_module = "Mhd.Props.C14"
     lean_targets = ["Mhd.Props.C14", "drv_auth"]
-    required_theorems = ["Mhd.C14.digest_roundtrip", "Mhd.C14.digest_rendering_invariant",
+    required_theorems = ["Mhd.C14.digest_roundtrip", "Mhd.C14.digest_rendering_invariant", "Mhd.C14.digest_roundtrip_full",
                          "Mhd.C14.algo_quoting_invariant", "Mhd.C14.qop_quoting_invariant", "Mhd.C14.userhash_quoting_invariant",
                          "Mhd.C14.digest_no_fault", "Mhd.C14.digest_fault_sites", "Mhd.C14.digest_term_irrelevant",
                          "Mhd.C14.basic_roundtrip", "Mhd.C14.basic_nocolon", "Mhd.C14.basic_invalid_base64_rejected",
-                         "Mhd.C14.basic_token_exact", "Mhd.C14.basic_garbage_rejected"]
+                         "Mhd.C14.basic_token_exact", "Mhd.C14.basic_garbage_rejected",
+                         "Mhd.C14.find_header_exact", "Mhd.C14.find_header_first", "Mhd.C14.basic_api_roundtrip",
+                         "Mhd.C14.info_roundtrip", "Mhd.C14.digest_api_roundtrip", "Mhd.C14.param_table"]
     trusted_base = ["Lean 4 kernel", "axioms: propext, Classical.choice, Quot.sound at most (audited per theorem)",
                     "hand-written model lean/Mhd/Model/Auth{Str,,Info}.lean tied to gen_auth.c/basicauth.c/digestauth.c/mhd_str.c "
                     "by this run's correspondence",
                     "tools/props/C14.py gen_auth (if-chains of get_rq_dauth_algo/qop, tk_names[], tokens, enum values, base64 and hex "
                     "tables regenerated from the source)",
-                    "grammar side lean/Mhd/Model/AuthGrammar.lean (render) and the Python RFC 7235/7616/7617/5987 reference reader",
+                    "grammar side lean/Mhd/Model/AuthGrammar.lean (render / renderG, view, reference tables algoSem/qopSem, base64 encoder), "
+                    "spec predicates canon / Elem.infoWf in lean/Mhd/Proofs/AuthInfo.lean, and the Python RFC 7235/7616/7617/5987 reference reader",
                     "harness/h_auth.c, gcc, ASan/UBSan"]
     assumptions = ["the header value handed to the parsers is followed in memory by one readable byte (the NUL the request parser "
                    "writes after every field value); parse_dauth_params reads str[str_len] (model: term = some _)",
@@ -891,7 +900,12 @@ class Spec:
         gen_auth()
 
     def build(self, ctx):
-        vlib.lake_build(["drv_auth"])     # the driver does not depend on the proofs
+        # the driver does not depend on the proofs: make sure it exists even when the theorems do not build
+        drv = vlib.driver_path("drv_auth")
+        srcs = [os.path.join(vlib.LEAN, f) for f in ("Mhd/Gen/Auth.lean", "Mhd/Model/AuthStr.lean", "Mhd/Model/Auth.lean",
+                                                      "Mhd/Model/AuthInfo.lean", "Driver/Auth.lean", "Driver/Common.lean")]
+        if not os.path.exists(drv) or any(os.path.getmtime(f) > os.path.getmtime(drv) for f in srcs):
+            vlib.lake_build(["drv_auth"])
         objs = vlib.cc_lib_objects("auth_objs", exclude=["gen_auth.c"])
         self.harness = vlib.cc("h_auth", [os.path.join(vlib.VERIF, "harness/h_auth.c")], objs=objs,
                                libs=["-lgnutls", "-lpthread"])
@@ -962,7 +976,7 @@ class Spec:
     def explore(self, ctx, boost):
         rng = ctx.rng
         thorough = ctx.tier == "thorough"
-        mult = (10 if thorough else 1) * (3 if boost else 1)
+        mult = (25 if thorough else 1) * (3 if boost else 1)
         failures = []
         stats = {"ops": {}, "outcomes": {}, "in_grammar": 0, "corruptions": 0, "corrupt_rejected": 0, "corrupt_changed_field": 0,
                  "corrupt_unchanged": 0, "term_none_no_read": 0, "term_none_asan_confirmed": 0, "nc_limit_waived": 0}
@@ -1047,7 +1061,9 @@ class Spec:
             v = (b"Digest " + s).strip(b" \t")
             if all(c not in (0, 10, 13) for c in v) and v:
                 add("real_connection", "conn %s" % hx(v)); nconn += 1
-        for v in itertools.islice(basic_cases(rng, 400), 150 if not thorough else 600):
+        for i, v in enumerate(itertools.islice(basic_cases(rng, 400), 150 if not thorough else 600)):
+            if i % 2 == 0:
+                v = b"Basic " + base64.b64encode(rnd_bytes(rng, b"abcXYZ09 @.\xc3\xa4\xff", 1, 9) + b":" + rnd_bytes(rng, b"abc:XYZ09 \xff", 0, 9))
             v = v.strip(b" \t")
             if v and all(c not in (0, 10, 13) for c in v):
                 add("real_connection", "conn %s" % hx(v))
@@ -1145,19 +1161,23 @@ class Spec:
                 return None
             # region = extended span(s) (preceding comma .. start of the next item) of the item(s) the byte belongs to
             affected, first_item, r_lo, r_hi = set(), len(spans), len(s), 0
-            for k, (slot, a, b) in enumerate(spans):
+            prevalue = False
+            for k, (slot, a, b, vs, qform) in enumerate(spans):
                 lo = spans[k - 1][2] if k else 0
                 hi = spans[k + 1][1] if k + 1 < len(spans) else len(s)
                 if lo <= pos < hi:
                     affected.add(slot)
                     first_item = min(first_item, k)
                     r_lo, r_hi = min(r_lo, lo), max(r_hi, hi)
-            # a byte that is or becomes '"' or '\\', or a separating comma that disappears, re-brackets the
-            # rest of the string: then only the parameters rendered entirely before the corrupted item are
-            # required to keep their value
-            structural = s[pos] in (0x22, 0x5C, 0x2C) or t[pos] in (0x22, 0x5C)
+                    if qform and a <= pos <= vs:
+                        prevalue = True      # the opening quote may no longer stand at the value start
+            # a byte that is or becomes '"' or '\\', a separating comma that disappears, or a change between the
+            # name and the opening quote of a quoted-string value (the quote then no longer opens the value)
+            # re-brackets the rest of the string: then only the parameters rendered entirely before the
+            # corrupted item are required to keep their value
+            structural = s[pos] in (0x22, 0x5C, 0x2C) or t[pos] in (0x22, 0x5C) or prevalue
             if structural:
-                before = {sl for (sl, a, b) in spans[:first_item]}
+                before = {sp[0] for sp in spans[:first_item]}
                 affected = set(range(12)) - before
                 r_hi = len(s)
             changed = False
